@@ -171,6 +171,8 @@ def ref_etags(v):
 
 # ------------------------------------------------------------------ Cookie (RFC 6265 4.2.1)
 
+QUOTED_COOKIE_READING = {}     # stack -> 'keep' | 'strip' (set by the check after calibration)
+
 COOKIE_OCTET = frozenset(chr(c) for c in [0x21] + list(range(0x23, 0x2C)) + list(range(0x2D, 0x3B)) +
                          list(range(0x3C, 0x5C)) + list(range(0x5D, 0x7F)))
 
@@ -179,8 +181,12 @@ def ref_cookies(v):
     """cookie-string = cookie-pair *( ";" SP cookie-pair ) -> [(name, [acceptable values])].
 
     For a DQUOTE-wrapped cookie-value RFC 6265 does not say whether the quotes belong to the
-    value; falcon documents that it mimics the standard library (strips them).  Both readings
-    are accepted.
+    value (falcon's parser says it mimics the standard library, which strips them).  Either
+    reading is acceptable, but it has to be ONE reading for the whole production
+    ( DQUOTE *cookie-octet DQUOTE ), the empty quoted value included: the alternatives are
+    returned as [kept, stripped] and `expectations` selects the one named by
+    QUOTED_COOKIE_READING[stack] ('keep' | 'strip'), which the check calibrates once per stack on
+    a non-empty quoted canary.  Without calibration both are accepted.
     """
     if not v:
         return FREE
@@ -560,7 +566,13 @@ def expectations(case, stack):
             B.add('cookie.invalid')
         else:
             first, allv = {}, {}
+            reading = QUOTED_COOKIE_READING.get(stack)
             for n, alts in r[1]:
+                if len(alts) > 1:
+                    if alts[1] == '':
+                        B.add('cookie.empty_quoted')
+                    if reading is not None:
+                        alts = [alts[0 if reading == 'keep' else 1]]
                 first.setdefault(n, alts)
                 allv.setdefault(n, []).append(alts)
             if len(allv) < len(r[1]):
